@@ -150,7 +150,11 @@ def read_value(v, v3=True):
             local = datetime.datetime(y, mth, d, h, mi, s, _frac_us(mo.group(7)))
         except ValueError:
             raise RefJsonError('bad date-time %r' % v)
-        return ('dt', (local - EPOCH) // US - offs * 1000000, offs, mo.group(9))
+        utc_us = (local - EPOCH) // US - offs * 1000000
+        from .refzinc import zone_offset_consistent
+        if mo.group(9) is not None and not zone_offset_consistent(utc_us, offs, mo.group(9)):
+            raise RefJsonError('offset %+d s is not the offset of zone %s at that instant: %r' % (offs, mo.group(9), v))
+        return ('dt', utc_us, offs, mo.group(9))
     if p == 'c':
         mo = COORD_RE.match(v)
         if not mo:
